@@ -5,6 +5,7 @@
 #include <cstring>
 #include <cstdio>
 #include <optional>
+#include <vector>
 #include "romea_core_common/concurrency/SharedVariable.hpp"
 #include "romea_core_common/concurrency/SharedOptionalVariable.hpp"
 #include "romea_core_common/monitoring/OnlineAverage.hpp"
@@ -54,6 +55,24 @@ int main(int argc, char ** argv)
   } else if (!std::strcmp(s, "SharedOptionalVariable")) {
     SharedOptionalVariable<long> v;
     race([&](int i) {v.store(i);}, [&](int) {auto c = v.consume(); if (c) {sink += *c;}});
+  } else if (!std::strcmp(s, "SharedOptionalVariable.atomic")) {
+    // exactly-once hand-over: one producer stores unique tickets, three consumers poll; no ticket may be taken twice
+    SharedOptionalVariable<long> v;
+    const long M = 300000;
+    std::vector<std::vector<long>> got(3);
+    std::atomic<bool> go{false}, done{false};
+    std::thread tp([&] {while (!go) {} for (long i = 1; i <= M; ++i) {v.store(i);} done = true;});
+    std::vector<std::thread> tc;
+    for (int c = 0; c < 3; ++c) {
+      tc.emplace_back([&, c] {while (!go) {} while (!done) {auto x = v.consume(); if (x) {got[c].push_back(*x);}}});
+    }
+    go = true;
+    tp.join();
+    for (auto & t : tc) {t.join();}
+    std::vector<char> seen(M + 1, 0);
+    long dup = 0;
+    for (auto & g : got) {for (long x : g) {if (x < 1 || x > M || seen[x]++) {++dup;}}}
+    if (dup) {std::printf("ATOMICITY-VIOLATION %ld tickets handed out more than once\n", dup);}
   } else if (!std::strcmp(s, "OnlineAverage")) {
     OnlineAverage a(0.1, 8);
     race([&](int i) {if (i % 50 == 0) {a.reset();} else {a.update(i * 0.1);}}, [&](int) {sink += a.getAverage(); sink += a.isAvailable();});
